@@ -34,6 +34,14 @@ Five explorations on the real writers, one reference reader (pmc/ref/omkm.py):
                setter / clear), then the model is written by both writers and compared with the model
                whose phases list the species where the history left them.
 
+  E   big      a generated model (40 species, 28 reactions, 12 BEPs, 3 interactions, three phases) large enough
+               for every field the CTI writer lays out over several lines (species, elements, phases, beps) to
+               wrap: every name style (species / phase / BEP names and id prefixes containing '-', '/', '.', ':',
+               '+' or none) x every shift of the first name of each list, so that every name reaches the end of a
+               line in turn; its reactions are a ladder of barriers (adsorption and other steps x explicit
+               transition state / BEP / none x exothermic / endothermic x transition state below, between, above
+               the two ends), written for every request (adsorption method x T x P x units).
+
 The expected activation energies do not come from the reaction getters: the harness combines each
 species' own get_GoRT / get_HoRT at the requested T and P into max(0, TS - initial, final - initial).
 """
@@ -63,7 +71,11 @@ RULE = ('phases: BFS over population histories, states de-duplicated on (species
         'writes: every operation sequence up to the depth from three (alphabet 1) / two (alphabet 2) '
         'initial id assignments, every sequence of (writer, request) up to depth 2 (thorough 3) from two models; '
         'moves: every move of the table x order x add kind x remove kind, every round trip, every move on four '
-        'other models (thorough: + every chain of two moves), each written by both writers')
+        'other models (thorough: + every chain of two moves), each written by both writers; big: generated model, every '
+        'name style x every shift 1-13 of the first name of each wrapped list (CTI; YAML for two shifts per style in the '
+        'quick tier), the barrier ladder under every request (adsorption method x T x P x units), polynomial classes, '
+        'user ids, Motz-Wise, and their pairs with the name styles (thorough: both writers for every shift, + the request '
+        'product for every style)')
 ASSUMPTIONS = [
     'species coefficients, site densities, rate inputs come from fixed tables (stated in bounds); '
     'polynomial coefficients are transcribed, not recomputed, so one table per class suffices',
@@ -89,6 +101,9 @@ ASSUMPTIONS = [
     'whatever the reaction objects carry from their construction or from an earlier write',
     'a species that the population history leaves in exactly one phase belongs to that phase (site density for A, '
     'gas species of an adsorption step); histories that leave a species in two phases or in none are not written',
+    'names contain no white space, quote characters, \'=\' or (for participants of reactions, which Reaction.from_string '
+    'splits at it) \'+\'; the break characters explored are - / . : +',
+    'the phases="..." field of an interface directive lists the names the interface was constructed with, in that order',
 ]
 EXPLANATION = ('explicit-state exploration and deviation-bounded product enumeration executed on the real '
                'writers; every explored case is an execution of the implementation')
@@ -239,8 +254,9 @@ def _sp_casters(form):
     raise ValueError(form)
 
 
-def make_species(name, cls, phase_as_name=True, phase=None, form='plain', n9='asc'):
-    """One species object of the requested polynomial class from the table."""
+def make_species(name, cls, phase_as_name=True, phase=None, form='plain', n9='asc', row=None, k=None):
+    """One species object of the requested polynomial class from the table (or from an explicit table row
+    (elements, phase name, cp/R, h/R, s/R, n_sites) with its own scale k: the generated model of the part "big")."""
     from pmutt.empirical.nasa import Nasa, Nasa9, SingleNasa9
     from pmutt.empirical.shomate import Shomate
     from pmutt import constants as c
@@ -248,10 +264,10 @@ def make_species(name, cls, phase_as_name=True, phase=None, form='plain', n9='as
         return Shomate(name='Ar', elements={'Ar': 1}, phase='gas' if phase_as_name else phase,
                        T_low=298., T_high=6000., a=np.array(AR_A))
     fT, fE, fS, fA = _sp_casters(form)
-    el, ph, cp, h, s, ns = SPEC[name]
+    el, ph, cp, h, s, ns = SPEC[name] if row is None else row
     el = {k_: fE(v) for k_, v in el.items()}
     ns = None if ns is None else fS(ns)
-    k = _k(name)
+    k = _k(name) if k is None else k
     ph = ph if phase_as_name else phase
     if cls == 'nasa':
         al = fA([cp, 1.1e-3 * k, -1.3e-6 * k, 1.7e-9 * k, -1.9e-13 * k, h - 50.25 * k, s])
@@ -841,6 +857,8 @@ def build_model(cfg, phases=True):
     from pmutt.mixture.cov import PiecewiseCovEffect
     from pmutt.omkm import phase as omkm_phase
     from pmutt.omkm.reaction import BEP, SurfaceReaction
+    if cfg.get('big'):
+        return build_big(cfg)
     m = Model()
     m.cfg = cfg
     names = ORDER_T + (ORDER_S if cfg['sites'] == 2 else [])
@@ -920,7 +938,12 @@ def attach_phases(m):
             m.phases.append(getattr(omkm_phase, kw['cls'])(**extra))
 
 
+XHOME = {}          # species name -> phase name of the generated model built last (part "big"; names disjoint from SPEC)
+
+
 def phase_name_of(species_name):
+    if species_name in XHOME:
+        return XHOME[species_name]
     if species_name == 'Ar':
         return 'gas'
     return SPEC[species_name][1]
@@ -932,7 +955,7 @@ def rxn_phase_names(r):
         out.add(phase_name_of(s.name))
     if r.transition_state is not None:
         for s in r.transition_state:
-            if s.name in SPEC:
+            if s.name in SPEC or s.name in XHOME:
                 out.add(phase_name_of(s.name))
     return out
 
@@ -960,10 +983,11 @@ def _species_route(m, T, P):
     def total(species, stoich, which):
         return sum(float(st) * q[s.name][which] for s, st in zip(species, stoich))
 
-    def barrier(r, which):
+    def parts(r, which):
+        """-> (final - initial, TS - initial or None), dimensionless."""
         ini = total(r.reactants, r.reactants_stoich, which)
         fin = total(r.products, r.products_stoich, which)
-        cands = [0., fin - ini]
+        ts = None
         if r.transition_state is not None:
             ts = 0.
             for s, st in zip(r.transition_state, r.transition_state_stoich):
@@ -975,8 +999,13 @@ def _species_route(m, T, P):
                     ts += float(st) * (ini + (float(s.slope) * dH + float(s.intercept)) / RT_kcal)
                 else:
                     ts += float(st) * q[s.name][which]
-            cands.append(ts - ini)
-        return max(cands)
+            ts -= ini
+        return fin - ini, ts
+
+    def barrier(r, which):
+        d_fin, d_ts = parts(r, which)
+        return max([0., d_fin] + ([] if d_ts is None else [d_ts]))
+    barrier.parts = parts
     return barrier
 
 
@@ -1067,6 +1096,9 @@ def expected_model(m, req):
         if name in sden:
             rec['site_density'] = sden[name] * Q / L ** 2
             rec['sd_unit'] = '%s/%s^2' % (U['quantity'], U['length'])
+            adj = [getattr(p, 'phases', None) for p in m.phases if p.name == name][0]
+            if adj is not None:
+                rec['adjacent'] = [getattr(p, 'name', p) for p in adj]
             rec['rxn'] = [k for k, r in enumerate(rx) if name in r['phases']]
             rec['li'] = [k for k, i in enumerate(ex['interactions']) if i['phase'] == name]
             rec['beps'] = []                 # positions in ex['beps']
@@ -1450,6 +1482,9 @@ def compare(ex, got, req, ctx, case, part, supplied, empty_ok=(), sig_extra=None
                 if rx_ok and not bp_ok:       # the BEP section itself is already reported
                     obs[2] = exp[2] = 'BEP section differs'
                 ok &= ctx.equal(C_PH_MEMB, obs, exp, dict(sg, field='member ids'), case)
+                if 'adjacent' in e:
+                    ok &= ctx.equal(C_PH_MEMB, g['phases'].split() if isinstance(g['phases'], str) else 'malformed',
+                                    e['adjacent'], dict(sg, field='adjacent phases'), case)
     return bool(ok)
 
 
@@ -1563,6 +1598,10 @@ def write_model(m, writer, req, out, ctx, case, part, oracle=True):
                         convert(text=text, outName=os.path.join(tmp, 'thermo.xml'))
                 except SystemExit:
                     accepted = False
+                except Exception as e:            # ctml_writer's own CTI_Error: not accepted; the comparison goes on
+                    if type(e).__name__ != 'CTI_Error':
+                        raise
+                    accepted = False
         ctx.trace()
         if complete:
             ctx.true('the bundled ctml_writer converts the CTI file', accepted, dict(part=part, item='ctml_writer'), case,
@@ -1577,10 +1616,12 @@ def write_model(m, writer, req, out, ctx, case, part, oracle=True):
                      kw['units'], units_before)
 
 
-def _cfg_of(delta, forms=False):
+def _cfg_of(delta, forms=False, big=False):
     cfg = dict(DEF_CFG)
     if forms:
         cfg.update(FORM_BASE)
+    if big:
+        cfg.update(BIG_BASE)
     cfg.update({k: v for k, v in delta.items() if k != 'cls'})
     if 'cls' in delta:                        # one class for every species of the model
         cfg['gas'] = cfg['surf'] = delta['cls']
@@ -1714,10 +1755,13 @@ def _prior_other(cfg, ctx):
 
 def _thermo_eval(case, ctx):
     forms = case['kind'] == 'forms'
-    cfg = _cfg_of(case['delta'], forms=forms)
+    big = case['kind'] == 'big'
+    cfg = _cfg_of(case['delta'], forms=forms, big=big)
     writer = case['writer']
     part = ('forms_yaml' if writer == 'yaml' else 'forms_cti') if forms else \
         ('thermo_yaml' if writer == 'yaml' else 'cti')
+    if big:
+        part = 'big_yaml' if writer == 'yaml' else 'big_cti'
     req = _req(cfg)
     _reset_defaults()
     try:
@@ -1771,6 +1815,16 @@ def _thermo_eval(case, ctx):
         if first is not None:
             ctx.true(C_H_SAME, _strip_stamp(first) == _strip_stamp(text), dict(part=part, item='file'), case,
                      _first_diff(_strip_stamp(first), _strip_stamp(text)), 'identical text')
+        if big:
+            ctx.tag('names:' + cfg['names'])
+            if cfg['ids'] == 'user':
+                ctx.tag('big:ids user')
+            if cfg['extra']:
+                ctx.tag('big:extra species')
+            if writer == 'cti':
+                for f_ in sorted(_wrapped_fields(text) & {'species', 'elements', 'beps', 'phases'}):
+                    ctx.tag('wrapped:' + f_)
+            _ladder_tags(m2, req, ctx)
         if got is None:
             return
         compare(ex, got, req, ctx, case, part, _supplied(m), _empty_ok(m))
@@ -2749,6 +2803,261 @@ def _run_reactor(shard, ctx):
 
 
 # =============================================================================================
+# E - big: a generated model large enough for every wrapped CTI field to wrap, names with characters at
+#     which generic text tools break or split, and a ladder of barriers (same evaluation as B2)
+# =============================================================================================
+# the character put inside every species / phase / BEP name and every reaction / interaction id prefix
+BIG_SEPS = {'plain': '', 'hyphen': '-', 'slash': '/', 'dot': '.', 'colon': ':', 'plus': '+'}
+BIG_SHIFTS = list(range(1, 14))        # length of the first name of every wrapped list: each later name reaches the
+                                       # end of a line in turn (names are 9-15 characters long)
+BIG_EL = ['Pt', 'Pd', 'Rh', 'Ir', 'Ni', 'Co', 'Fe', 'Cu', 'Ag', 'Au', 'Zn', 'Mo', 'W', 'Re', 'Os', 'Mn', 'Cr', 'V',
+          'Ti', 'Zr', 'Nb', 'Sn', 'Ga', 'In']
+BIG_BASE = dict(big=True, names='hyphen', shift=1, extra=0, build='direct', sites=1, li=3, bep=12)
+BIG_SDEN = 2.4983e-09
+# the ladder: (reaction enthalpy) x (where the transition state lies), in K (h/R); BEP intercepts in kcal/mol
+LADDER = [(th, pos) for th in ('exo', 'endo') for pos in ('below', 'between', 'above')]
+LADDER_FIN = {'exo': -6000., 'endo': 6000.}
+LADDER_TS = {('exo', 'below'): -9000., ('exo', 'between'): -3000., ('exo', 'above'): 3000.,
+             ('endo', 'below'): -3000., ('endo', 'between'): 3000., ('endo', 'above'): 9000.}
+LADDER_ICPT = {('exo', 'below'): -12., ('exo', 'between'): -2., ('exo', 'above'): 12.,
+               ('endo', 'below'): -12., ('endo', 'between'): 0., ('endo', 'above'): 12.}
+LADDER_ROUTES = ['ads/H', 'ads/G', 'surf/G']
+PLANNED_TAGS += ['ladder:%s:%s:%s:%s' % (r_, th_, pos_, ts_) for r_ in LADDER_ROUTES for th_, pos_ in LADDER
+                 for ts_ in ('ts', 'bep')]
+PLANNED_TAGS += ['ladder:%s:%s:no-ts' % (r_, th_) for r_ in LADDER_ROUTES for th_ in ('exo', 'endo')]
+PLANNED_TAGS += ['names:' + n_ for n_ in BIG_SEPS] + ['rxn:stick-ts', 'rxn:stick-bep', 'big:ids user',
+                                                        'wrapped:species', 'wrapped:elements', 'wrapped:beps',
+                                                        'wrapped:phases']
+
+
+def big_tables(cfg):
+    """Plain-data tables of the generated model: species rows in file order, reactions, BEPs, interactions,
+    phase names.  c is the break character of the style; reaction strings are split at '+' and '=' by
+    Reaction.from_string, so participants of reactions carry it only when it is neither of them."""
+    c = BIG_SEPS[cfg['names']]
+    r = '' if c in ('+', '=') else c
+    k0, extra = int(cfg['shift']), int(cfg.get('extra', 0))
+    # phase names long enough for the phases="..." field of the interface to wrap
+    gas = 'gas%sphase%sover%sthe%scatalyst' % (c, c, c, c) + 'g' * (k0 % 4)
+    bulk, terr = 'bulk%sof%sthe%scatalyst%sb' % (c, c, c, c), 'terrace%sc' % c
+    rows, order = {}, []
+
+    def put(name, el, ph, cp, h, s, ns):
+        if name in rows:
+            raise ValueError('harness: name %s generated twice' % name)
+        rows[name] = (el, ph, cp, h, s, ns)
+        order.append(name)
+    CHO = {'C': 1, 'H': 2, 'O': 1}
+    n_el = [0]
+
+    def plus_el(el):
+        out = dict(el)
+        out[BIG_EL[n_el[0] % len(BIG_EL)]] = 1
+        n_el[0] += 1
+        return out
+    # gas: the pad, three reactants, inert species
+    put('X' * k0, {'He': 1}, gas, 2.5, 0., 15.1, None)
+    G = ['cis%sHCOH%s' % (r, x) for x in 'abc']
+    for j, n in enumerate(G):
+        put(n, CHO, gas, 3.5, 0. + 11. * j, 20.0 + 0.05 * j, None)
+    for j in range(1 + extra):
+        put('iso%sC4H9%s%d' % (c, c, j), {'C': 4, 'H': 9}, gas, 4.1, -800. - 9. * j, 31. + 0.1 * j, None)
+    put('Pt%sbulk(B)' % r, {'Ru': 1}, bulk, 3.0, 0., 3.4, None)
+    # terrace: the pad, the site, the adsorption ladder, the surface ladder, spectators
+    site = 'Pt%sfcc(T)' % r
+    put('Y' * k0, plus_el({'H': 1}), terr, 2.1, -2500., 1.7, 1)
+    put(site, {'Ru': 1}, terr, 2.0, 0., 2.0, 1)
+    XP = ['trans%sCOOH%d(T)' % (r, n + 1) for n in range(8)]          # products of the adsorption steps
+    XT = ['TS%sads%d(T)' % (r, n + 1) for n in range(6)]
+    A = ['n%sC3H7%s(T)' % (r, x) for x in 'abc']                       # reactants of the surface steps
+    BP = ['iso%sC3H7%d(T)' % (r, n + 1) for n in range(8)]
+    BT = ['TS%siso%d(T)' % (r, n + 1) for n in range(6)]
+    fin = [LADDER_FIN[th] + 37. * n for n, (th, pos) in enumerate(LADDER)] + [LADDER_FIN['exo'] - 500., LADDER_FIN['endo'] + 500.]
+    tsh = [LADDER_TS[lp] + 53. * n for n, lp in enumerate(LADDER)]
+    for n, name in enumerate(XP):
+        put(name, plus_el(CHO), terr, 2.5, fin[n], 18.6 - 1.0 + 0.12 * n, 1)
+    for n, name in enumerate(XT):
+        put(name, plus_el(dict(CHO, Ru=1)), terr, 5.5, tsh[n], 22.0 + 0.8 - 0.1 * n, 2)
+    for j, name in enumerate(A):
+        put(name, {'C': 3, 'H': 7}, terr, 2.6, -2000. + 13. * j, 3.0 + 0.05 * j, 1)
+    for n, name in enumerate(BP):
+        put(name, plus_el({'C': 3, 'H': 7}), terr, 2.6, -2000. + fin[n], 3.0 + 0.9 - 0.15 * n, 1)
+    for n, name in enumerate(BT):
+        put(name, plus_el({'C': 3, 'H': 7}), terr, 2.6, -2000. + tsh[n], 3.0 - 0.7 + 0.11 * n, 1)
+    for j in range(1 + extra):
+        put('spect%sator%d(T)' % (c, j), plus_el({'O': 1}), terr, 2.2, -1500. - 7. * j, 2.2, 1)
+    # BEPs (one per BEP rung; the first name is the pad of the beps field) and reactions
+    beps, rxns = {}, []
+    bulk_sp = 'Pt%sbulk(B)' % r
+    for n, lp in enumerate(LADDER):
+        for fam in ('ads', 'surf'):
+            key = 'bep%s%s%d' % (r, 'CO' if fam == 'ads' else 'CH', n + 1)
+            beps[key] = dict(slope=0.5 + 0.01 * n + (0.002 if fam == 'surf' else 0.), intercept=LADDER_ICPT[lp] + 0.1 * n
+                             + (0.05 if fam == 'surf' else 0.), direction='cleavage' if n % 2 == 0 else 'synthesis',
+                             descriptor='delta_H')
+    bep_names = dict(zip(beps, ['Z' * k0] + list(beps)[1:]))
+    for n, lp in enumerate(LADDER):
+        d = 'cleavage' if n % 2 == 0 else 'synthesis'
+        rxns.append(('stick-ts', '%s + %s = %s = %s + %s' % (G[0], site, XT[n], XP[n], bulk_sp),
+                     dict(is_adsorption=True, beta=0, sticking_coeff=0.5 - 0.03 * n)))
+        rxns.append(('ts', '%s = %s = %s' % (A[0], BT[n], BP[n]), {}))
+        rxns.append(('stick-bep', '%s + %s = bep%sCO%d = %s + %s' % (G[1], site, r, n + 1, XP[n], bulk_sp),
+                     dict(is_adsorption=True, beta=0.25, sticking_coeff=0.9 - 0.04 * n, direction=d)))
+        rxns.append(('bep', '%s = bep%sCH%d = %s' % (A[1], r, n + 1, BP[n]), dict(direction=d)))
+    for j in (6, 7):
+        rxns.append(('stick', '%s + %s = %s + %s' % (G[2], site, XP[j], bulk_sp),
+                     dict(is_adsorption=True, beta=0, sticking_coeff=0.2 + 0.01 * j)))
+        rxns.append(('plain', '%s = %s' % (A[2], BP[j]), {}))
+    lis = [dict(name_i=XP[0], name_j=XP[0], intervals=[0., 0.25], slopes=[-31.5, -7.25]),
+           dict(name_i=XP[1], name_j=BP[2], intervals=[0.], slopes=[-12.75]),
+           dict(name_i=BP[3], name_j=XP[0], intervals=[0., 0.5, 0.75], slopes=[-9.5, -2.0, 3.25])]
+    user = cfg.get('ids') == 'user'
+    return dict(sep=c, gas=gas, bulk=bulk, terrace=terr, rows=rows, order=order, beps=beps, bep_names=bep_names,
+                rxns=rxns, lis=lis,
+                rxn_ids=['rx%sa_%04d' % (c, 10 + i) if user else None for i in range(len(rxns))],
+                li_names=['li%sx_%04d' % (c, 4 + i) if user else None for i in range(len(lis))])
+
+
+def build_big(cfg):
+    """The generated model as a Model with the attributes build_model gives (phases built directly)."""
+    from pmutt import pmutt_list_to_dict
+    from pmutt.mixture.cov import PiecewiseCovEffect
+    from pmutt.omkm import phase as omkm_phase
+    from pmutt.omkm.reaction import BEP, SurfaceReaction
+    t = big_tables(cfg)
+    m = Model()
+    m.cfg = cfg
+    XHOME.clear()
+    XHOME.update({n: t['rows'][n][1] for n in t['order']})
+    m.species = []
+    for i, n in enumerate(t['order']):
+        kind = t['rows'][n][1]
+        cls = cfg['gas'] if kind == t['gas'] else cfg['surf']
+        m.species.append(make_species(n, cls, row=t['rows'][n], k=1.0 + 0.01 * i))
+    m.bep_keys = list(t['beps'])
+    m.beps = [BEP(name=t['bep_names'][key], **kw) for key, kw in t['beps'].items()]
+    d = pmutt_list_to_dict(m.species)
+    for key, b in zip(m.bep_keys, m.beps):
+        d[key] = b
+    m.lookup = d
+    m.rxn_tags = [x[0] for x in t['rxns']]
+    m.reactions = [SurfaceReaction.from_string(s, d, id=i, **kw) for (tag, s, kw), i in zip(t['rxns'], t['rxn_ids'])]
+    m.interactions = [PiecewiseCovEffect(name=nm, **copy.deepcopy(kw)) for kw, nm in zip(t['lis'], t['li_names'])]
+    m.units = make_units(cfg['units'])
+    m.phase_names = [t['gas'], t['bulk'], t['terrace']]
+    m.home = dict(XHOME)
+    m.members = {pn: [n for n in t['order'] if m.home[n] == pn] for pn in m.phase_names}
+    m.phase_kind = {t['gas']: 'ideal_gas', t['bulk']: 'stoichiometric_solid', t['terrace']: 'interacting_interface'}
+    m.sden = {t['terrace']: BIG_SDEN}
+    m.density = DENSITY
+    by = {s.name: s for s in m.species}
+    m.phases = [omkm_phase.IdealGas(name=t['gas'], species=[by[n] for n in m.members[t['gas']]]),
+                omkm_phase.StoichSolid(name=t['bulk'], species=[by[n] for n in m.members[t['bulk']]], density=DENSITY),
+                omkm_phase.InteractingInterface(name=t['terrace'], species=[by[n] for n in m.members[t['terrace']]],
+                                                site_density=BIG_SDEN, phases=[t['gas'], t['bulk']],
+                                                reactions=list(m.reactions), interactions=list(m.interactions))]
+    return m
+
+
+def _wrapped_fields(text):
+    """Which triple-quoted fields of the CTI text run over more than one line (for the tags only)."""
+    out = set()
+    for mt in re.finditer(r'(\w+)\s*=\s*"""(.*?)"""', text, flags=re.S):
+        if '\n' in mt.group(2):
+            out.add(mt.group(1))
+    return out
+
+
+def _ladder_tags(m2, req, ctx):
+    """Which rung of the ladder every step of the model stands on at the requested T, P (for the planned tags:
+    the alphabet contains adsorption and other steps whose transition state lies below, between and above the
+    two ends, for endothermic and exothermic steps, in the H and in the G route)."""
+    parts = _species_route(m2, req['T'], req['P']).parts
+    for r_ in m2.reactions:
+        if r_.Ea is not None:
+            continue
+        if r_.is_adsorption:
+            which = {'get_G_act': 'G', 'get_H_act': 'H'}[req['ads_act']]
+            route = 'ads/' + which
+        else:
+            which, route = 'G', 'surf/G'
+        d_fin, d_ts = parts(r_, which)
+        th = 'exo' if d_fin < 0 else 'endo'
+        if d_ts is None:
+            ctx.tag('ladder:%s:%s:no-ts' % (route, th))
+            continue
+        lo, hi = min(0., d_fin), max(0., d_fin)
+        pos = 'below' if d_ts < lo else ('above' if d_ts > hi else 'between')
+        kind = 'bep' if any(s is b for s in r_.transition_state for b in m2.beps) else 'ts'
+        ctx.tag('ladder:%s:%s:%s:%s' % (route, th, pos, kind))
+
+
+def _big_deltas(tier):
+    """quick: every name style x every shift (hyphen = base style); the ladder under every request
+    (adsorption method x T x P x units); polynomial classes, user ids, Motz-Wise, pairs with the styles.
+    thorough: both writers for every shift, and the request product for every style.  (`extra` adds inert species per
+    phase; it is not enumerated: the base model has the 40 species the quantifier of the property goes up to.)"""
+    q = tier == 'quick'
+    out = [{}]
+    for nm in BIG_SEPS:
+        for k in BIG_SHIFTS:
+            d = {}
+            if nm != BIG_BASE['names']:
+                d['names'] = nm
+            if k != BIG_BASE['shift']:
+                d['shift'] = k
+            if d:
+                out.append(d)
+    reqs = []
+    for aa in COORDS['ads_act']:
+        for T in COORDS['T']:
+            for P in COORDS['P']:
+                for u in ('ex', 'si', 'default'):
+                    d = {}
+                    if aa != DEF_CFG['ads_act']:
+                        d['ads_act'] = aa
+                    if T != DEF_CFG['T']:
+                        d['T'] = T
+                    if P != DEF_CFG['P']:
+                        d['P'] = P
+                    if u != DEF_CFG['units']:
+                        d['units'] = u
+                    if d:
+                        reqs.append(d)
+    out += reqs
+    singles = [dict(cls='nasa9'), dict(cls='shomate'), dict(ids='user'), dict(motz=True)]
+    out += singles
+    for nm in BIG_SEPS:
+        if nm == BIG_BASE['names']:
+            continue
+        out += [dict(s_, names=nm) for s_ in singles[2:]]
+        out.append(dict(names=nm, ads_act='get_G_act', units='si'))
+    out += [dict(s_, ads_act='get_G_act') for s_ in singles[:3]]
+    if not q:
+        for nm in BIG_SEPS:
+            if nm != BIG_BASE['names']:
+                out += [dict(d, names=nm) for d in reqs]
+        out = [dict(t_) for t_ in sorted({tuple(sorted(d.items(), key=str)) for d in out}, key=str)]
+    return out
+
+
+def _run_big(shard, ctx):
+    for delta in shard['deltas']:
+        # only the CTI writer lays the lists out itself: in the quick tier the YAML file is written for two of the
+        # shifts of a style (and for every other configuration)
+        cti_only = shard.get('tier', 'quick') == 'quick' and delta.get('shift', 1) not in (1, 7)
+        for writer in (('cti',) if cti_only else ('yaml', 'cti')):
+            case = dict(kind='big', writer=writer, delta=delta)
+            key = ('big', writer, sorted(delta.items(), key=str))
+            ctx.state(key)
+            ctx.trans(len(delta))
+            ctx.nontrivial(key)
+            ctx.run_case(_thermo_eval, case, dict(part='big_yaml' if writer == 'yaml' else 'big_cti', item='write'))
+            if len(delta) == 2:
+                ctx.sample(case, limit=1)
+
+
+# =============================================================================================
 # runner interface
 # =============================================================================================
 def bounds(tier):
@@ -2769,7 +3078,10 @@ def bounds(tier):
         forms=dict(base=FORM_BASE, coordinates={k: FORM_COORDS[k] for k in FORM_ORDER}, families=FORM_FAMILY,
                    deviation_level=('singles + pairs inside a family and with units / TP_form / units_arg' if q else
                                     'singles + all pairs + triples inside R and inside S+units'),
-                   configurations=len(_form_deltas(tier)), writers=['write_thermo_yaml', 'write_cti']))
+                   configurations=len(_form_deltas(tier)), writers=['write_thermo_yaml', 'write_cti']),
+        big=dict(base=BIG_BASE, name_styles=BIG_SEPS, shifts=BIG_SHIFTS, ladder=[list(l) for l in LADDER],
+                 ladder_routes=LADDER_ROUTES, species=40, reactions=28, beps=12, interactions=3,
+                 configurations=len(_big_deltas(tier)), writers=['write_thermo_yaml', 'write_cti']))
 
 
 def _chunks(items, n):
@@ -2804,13 +3116,15 @@ def shards(tier):
     fd = _form_deltas(tier)
     for ch in _chunks(fd, 16 if q else 48):
         out.append(dict(kind='forms', deltas=ch))
+    for ch in _chunks(_big_deltas(tier), 16):
+        out.append(dict(kind='big', deltas=ch, tier=tier))
     return out
 
 
 def run_shard(shard, ctx):
     _reset_defaults()
     {'phases': _run_phases, 'reactor': _run_reactor, 'thermo': _run_thermo, 'hist': _run_hist,
-     'forms': _run_forms, 'moves': _run_moves}[shard['kind']](shard, ctx)
+     'forms': _run_forms, 'moves': _run_moves, 'big': _run_big}[shard['kind']](shard, ctx)
 
 
 def check_case(case, ctx):
@@ -2821,7 +3135,7 @@ def check_case(case, ctx):
         _ph_replay(case, ctx, check_all=True)
     elif kind == 'reactor':
         _reactor_eval(case, ctx)
-    elif kind in ('thermo', 'forms'):
+    elif kind in ('thermo', 'forms', 'big'):
         _thermo_eval(case, ctx)
     elif kind == 'hist':
         _hist_eval(case, ctx)
